@@ -23,12 +23,12 @@ def SlackSem : List (LinRow (Ext K)) → List K → List K → Prop
     | .ge => rowVal r.coeffs u - s.headD 0 = toK r.rhs ∧ SlackSem rs u s.tail
     | _ => False
 
-theorem eqNew_length (tol : Ext K) (c : List (Ext K)) (rhs : Ext K) : (eqNew tol c rhs).coeffs.length = c.length := by
+theorem eqNew_length (c : List (Ext K)) (rhs : Ext K) : (eqNew c rhs).coeffs.length = c.length := by
   unfold eqNew; split <;> simp
 
 /-- the sign normalisation keeps the meaning of the row (whatever the tolerance decides). -/
-theorem eqNew_sem (tol : Ext K) (c : List (Ext K)) (rhs : Ext K) (y : List K) (hc : ∀ x ∈ c, isFin x) (hr : isFin rhs) :
-    rowVal (eqNew tol c rhs).coeffs y = toK (eqNew tol c rhs).rhs ↔ rowVal c y = toK rhs := by
+theorem eqNew_sem (c : List (Ext K)) (rhs : Ext K) (y : List K) (hc : ∀ x ∈ c, isFin x) (hr : isFin rhs) :
+    rowVal (eqNew c rhs).coeffs y = toK (eqNew c rhs).rhs ↔ rowVal c y = toK rhs := by
   unfold eqNew
   split
   · simp only [rowVal_map_negOne c y hc, toK_neg hr]
@@ -65,11 +65,11 @@ theorem rowVal_slack_row (c : List (Ext K)) (z : Ext K) (u e : List K) (s0 : K) 
   simp
 
 /-- **`normalizeAll` in slack form.** -/
-theorem normalizeAll_sem (tol : Ext K) (u : List K) :
+theorem normalizeAll_sem (u : List K) :
     ∀ (rows : List (LinRow (Ext K))) (e s : List K) (sl su : Nat) (srows : List (StdRow (Ext K)))
       (names : List String) (total' : Nat),
       (∀ r ∈ rows, RowOK u.length r) →
-      normalizeAll tol (u.length + e.length) sl su rows = .ok (srows, names, total') →
+      normalizeAll (u.length + e.length) sl su rows = .ok (srows, names, total') →
       s.length = nonEq rows →
       total' = u.length + e.length + nonEq rows ∧ names.length = nonEq rows ∧
       (∀ sr ∈ srows, sr.coeffs.length ≤ total') ∧
@@ -84,7 +84,7 @@ theorem normalizeAll_sem (tol : Ext K) (u : List K) :
     rcases hr.cmp with hc | hc | hc
     · -- ≤ : slack column
       simp only [normalizeAll, hc] at h
-      cases hrec : normalizeAll tol (u.length + e.length + 1) (sl+1) su rs with
+      cases hrec : normalizeAll (u.length + e.length + 1) (sl+1) su rs with
       | error err => simp [hrec] at h
       | ok res =>
         obtain ⟨rows', names', t'⟩ := res
@@ -95,7 +95,7 @@ theorem normalizeAll_sem (tol : Ext K) (u : List K) :
           cases s with
           | nil => simp at hs'; omega
           | cons a b => exact ⟨a, b, rfl⟩
-        have ih := normalizeAll_sem tol u rs (e ++ [s0]) s' (sl+1) su rows' names' t' hrs
+        have ih := normalizeAll_sem u rs (e ++ [s0]) s' (sl+1) su rows' names' t' hrs
           (by simpa [Nat.add_assoc] using hrec) (by simp at hs'; omega)
         obtain ⟨ht, hn, hl, hsem⟩ := ih
         have hfin := isFin_resize_append r.coeffs (u.length + e.length) Arith.one hr.fin isFin_one (by rw [hr.len]; omega)
@@ -105,13 +105,13 @@ theorem normalizeAll_sem (tol : Ext K) (u : List K) :
           · rw [eqNew_length]; simp [resize, hr.len]; simp [nonEq, hc] at ht; omega
           · exact hl sr hsr
         · simp only [List.forall_mem_cons, SlackSem, hc, List.headD_cons, List.tail_cons]
-          rw [eqNew_sem tol _ _ _ hfin hr.rhs, rowVal_slack_row r.coeffs Arith.one u e s0 s' hr.len]
+          rw [eqNew_sem _ _ _ hfin hr.rhs, rowVal_slack_row r.coeffs Arith.one u e s0 s' hr.len]
           have : u ++ (e ++ [s0]) ++ s' = u ++ e ++ s0 :: s' := by simp
           rw [this] at hsem
           rw [hsem]; simp
     · -- ≥ : surplus column
       simp only [normalizeAll, hc] at h
-      cases hrec : normalizeAll tol (u.length + e.length + 1) sl (su+1) rs with
+      cases hrec : normalizeAll (u.length + e.length + 1) sl (su+1) rs with
       | error err => simp [hrec] at h
       | ok res =>
         obtain ⟨rows', names', t'⟩ := res
@@ -122,7 +122,7 @@ theorem normalizeAll_sem (tol : Ext K) (u : List K) :
           cases s with
           | nil => simp at hs'; omega
           | cons a b => exact ⟨a, b, rfl⟩
-        have ih := normalizeAll_sem tol u rs (e ++ [s0]) s' sl (su+1) rows' names' t' hrs
+        have ih := normalizeAll_sem u rs (e ++ [s0]) s' sl (su+1) rows' names' t' hrs
           (by simpa [Nat.add_assoc] using hrec) (by simp at hs'; omega)
         obtain ⟨ht, hn, hl, hsem⟩ := ih
         have hneg : isFin (Arith.ofInt (-1) : Ext K) := by simp [Arith.ofInt, isFin]
@@ -133,19 +133,19 @@ theorem normalizeAll_sem (tol : Ext K) (u : List K) :
           · rw [eqNew_length]; simp [resize, hr.len]; simp [nonEq, hc] at ht; omega
           · exact hl sr hsr
         · simp only [List.forall_mem_cons, SlackSem, hc, List.headD_cons, List.tail_cons]
-          rw [eqNew_sem tol _ _ _ hfin hr.rhs, rowVal_slack_row r.coeffs (Arith.ofInt (-1)) u e s0 s' hr.len]
+          rw [eqNew_sem _ _ _ hfin hr.rhs, rowVal_slack_row r.coeffs (Arith.ofInt (-1)) u e s0 s' hr.len]
           have : u ++ (e ++ [s0]) ++ s' = u ++ e ++ s0 :: s' := by simp
           rw [this] at hsem
           rw [hsem]; simp [sub_eq_add_neg]
     · -- = : no new column
       simp only [normalizeAll, hc] at h
-      cases hrec : normalizeAll tol (u.length + e.length) sl su rs with
+      cases hrec : normalizeAll (u.length + e.length) sl su rs with
       | error err => simp [hrec] at h
       | ok res =>
         obtain ⟨rows', names', t'⟩ := res
         simp only [hrec, Except.ok.injEq, Prod.mk.injEq] at h
         obtain ⟨rfl, rfl, rfl⟩ := h
-        have ih := normalizeAll_sem tol u rs e s sl su rows' names' t' hrs hrec (by simpa [nonEq, hc] using hs)
+        have ih := normalizeAll_sem u rs e s sl su rows' names' t' hrs hrec (by simpa [nonEq, hc] using hs)
         obtain ⟨ht, hn, hl, hsem⟩ := ih
         refine ⟨by simp [nonEq, hc] at ht ⊢; omega, by simp [nonEq, hc, hn], ?_, ?_⟩
         · intro sr hsr
@@ -153,7 +153,7 @@ theorem normalizeAll_sem (tol : Ext K) (u : List K) :
           · rw [eqNew_length, hr.len]; omega
           · exact hl sr hsr
         · simp only [List.forall_mem_cons, SlackSem, hc]
-          rw [eqNew_sem tol _ _ _ hr.fin hr.rhs, List.append_assoc, rowVal_append_right r.coeffs u (e ++ s) (by rw [hr.len]),
+          rw [eqNew_sem _ _ _ hr.fin hr.rhs, List.append_assoc, rowVal_append_right r.coeffs u (e ++ s) (by rw [hr.len]),
             ← List.append_assoc, hsem]
 
 end StdNorm
